@@ -7,9 +7,19 @@ VERIF = os.path.dirname(os.path.dirname(os.path.abspath(__file__)))
 sys.path.insert(0, os.path.join(VERIF, "rules"))
 import engine
 d, key, _ = engine.extract_facts()
-inv = {"tree_hash": key, "crates": {}}
+import re
+inv = {"tree_hash": key, "crates": {}, "detail": {}}
+
+
+def norm_sig(sig):
+    return re.sub(r"DefId\([^)]*\)", "D", sig or "")
 for name in ("nucleo", "nucleo_matcher"):
     c = json.load(open(os.path.join(d, name + ".json")))
     inv["crates"][name] = sorted(b["path"] for b in c["bodies"] if b["kind"] in ("Fn", "AssocFn"))
+    inv["detail"][name] = {}
+    for b in c["bodies"]:
+        if b["kind"] in ("Fn", "AssocFn"):
+            callees = sorted(set((blk["term"].get("resolved") or blk["term"].get("fn") or "?") for blk in b["blocks"] if blk["term"]["k"] == "call"))
+            inv["detail"][name][b["path"]] = {"sig": norm_sig(b.get("sig")), "callees": callees, "container": b.get("impl_self") or b["path"].rsplit("::", 1)[0]}
 json.dump(inv, open(os.path.join(VERIF, "ref", "fn_inventory.json"), "w"), indent=1)
 print({k: len(v) for k, v in inv["crates"].items()})
